@@ -297,11 +297,11 @@ example : mfpCompanions (some (ascii "d/mfp.kid-chaos")) = [ascii "d/smp.kid-cha
 /-! ## helper programs -/
 
 /-- **A program is started only** for a path load (`filename` present) of a
-file of at least 100 bytes that no built-in depacker claimed and that starts
+file of at least `decrunchMinHeader` bytes (a generated constant) that no built-in depacker claimed and that starts
 with `MO3` or `Rar`; the argument vector is the fixed one for that helper. -/
 theorem C10_exec (b : Bytes) (builtin : Bool) (fn : Option Bytes) (argv : List Bytes)
     (h : decrunchDecision b builtin fn = .external argv) :
-    ∃ f, fn = some f ∧ builtin = false ∧ 100 ≤ b.length ∧
+    ∃ f, fn = some f ∧ builtin = false ∧ decrunchMinHeader ≤ b.length ∧
       ((b.take 3 = sigMO3 ∧ argv = unmo3Argv f) ∨ (b.take 3 = sigRar ∧ argv = unrarArgv f)) := by
   unfold decrunchDecision at h
   split at h
